@@ -263,3 +263,7 @@ M("todb-commit-after-delete", "io/db.py", "        cursor.execute(truncatequery)
 M("todb-commit-in-finally", "io/db.py", "    cursor.executemany(insertquery, it)\n\n    # finish up\n    debug('close the cursor')\n    cursor.close()\n\n    if commit:\n        debug('commit transaction')\n        connection.commit()", "    try:\n        cursor.executemany(insertquery, it)\n    finally:\n        cursor.close()\n        if commit:\n            connection.commit()", ["C17"], nth=0)
 M("todb-executemany-list-EQUIV-must-stay-green", "io/db.py", "    cursor.executemany(insertquery, it)\n\n    # finish up", "    cursor.executemany(insertquery, list(it))\n\n    # finish up", ["C17"], nth=0)
 M("appenddb-filename-no-close", "io/db.py", "        _todb(table, dbo, tablename, schema=schema, commit=commit,\n              truncate=False)\n\n    finally:\n        if needs_closing:\n            dbo.close()", "        _todb(table, dbo, tablename, schema=schema, commit=commit,\n              truncate=False)\n\n    finally:\n        if needs_closing:\n            dbo.commit()\n            dbo.close()", ["C17"])
+
+# ---- later additions -------------------------------------------------------------------------------------------------
+M("lookup-appends-in-place-breaks-shelve", LK, "            l = dictionary[k]\n            l.append(v)\n            dictionary[k] = l\n        else:\n            dictionary[k] = [v]\n\n    return dictionary\n\n\nTable.lookup = lookup",
+  "            dictionary[k].append(v)\n        else:\n            dictionary[k] = [v]\n\n    return dictionary\n\n\nTable.lookup = lookup", ["C07"])
